@@ -474,6 +474,50 @@ def _guarded_by(A, f, node_ast, kind):
     return False, 'no dominating guard'
 
 
+LAZY_WRAPPERS = {'iter', 'map', 'filter', 'enumerate', 'zip', 'reversed'}
+
+
+def _lazy_uses(f, call, depth=0):
+    """Loads of the locals that hold the still unconsumed iterator returned
+    by `call` (directly, or wrapped in a generator expression / iter / map /
+    filter / enumerate): the places where it is consumed or handed on."""
+    def holds(v, src_names):
+        if v is call:
+            return True
+        if isinstance(v, ast.Name) and v.id in src_names:
+            return True
+        if isinstance(v, ast.GeneratorExp):
+            return holds(v.generators[0].iter, src_names)
+        if isinstance(v, ast.Call) and norm(v.func) in LAZY_WRAPPERS:
+            return any(holds(a, src_names) for a in v.args)
+        return False
+    names = set()
+    stores = set()
+    changed = True
+    while changed:
+        changed = False
+        for st in walk_own(f.node):
+            if isinstance(st, ast.Assign) and len(st.targets) == 1 \
+                    and isinstance(st.targets[0], ast.Name) \
+                    and holds(st.value, names) and st.targets[0].id not in names:
+                names.add(st.targets[0].id)
+                changed = True
+    uses = []
+    for st in walk_own(f.node):
+        if isinstance(st, ast.Assign) and len(st.targets) == 1 \
+                and isinstance(st.targets[0], ast.Name) \
+                and st.targets[0].id in names and holds(st.value, names):
+            # a lazy re-binding is not a consumption
+            for sub in ast.walk(st.value):
+                stores.add(id(sub))
+    for n in walk_own(f.node):
+        if isinstance(n, ast.Name) and isinstance(n.ctx, ast.Load) \
+                and n.id in names and id(n) not in stores:
+            uses.append(n)
+    return uses
+
+
+
 @rule('R06.e', ('C06',), 'conversions of user text that can raise are guarded',
       floor=4,
       decides='the compiler never fails with an internal error on any text')
@@ -500,6 +544,14 @@ def r06e(R):
                 R.check(f, node, ok, 'the format string comes from the script; '
                         'Formatter.parse raises ValueError on an unbalanced '
                         'brace and nothing here handles it (%s)' % why)
+                # parse() returns a generator: the ValueError is raised where
+                # the fields are consumed, not where parse() is called
+                for use in _lazy_uses(f, node):
+                    ok, why = _guarded_by(A, f, use, 'try:ValueError')
+                    R.check(f, use, ok, 'Formatter.parse returns a lazy '
+                            'iterator: the ValueError for an unbalanced brace '
+                            'is raised where `%s` is consumed, and that is '
+                            'outside the handler (%s)' % (norm(use), why))
             # Enum[...] with a computed key
             if isinstance(node, ast.Subscript) and isinstance(node.ctx, ast.Load) \
                     and not isinstance(node.slice, ast.Constant):
